@@ -38,7 +38,18 @@ def run(p: Program, rep: Report, tier: str) -> None:
     rep.analysed(init.fq, build.fq, rpr.fq, rpl.fq)
 
     gateway_url_branches(p, rep, "R18.1")
-    rep.require_instances("R18.1", 12)
+    # the stored URL is split with urlsplit (urlparse would cut ';params' off the last path segment)
+    splitters = [(fn_, c, p.resolve_call(fn_, c)) for fn_ in url.methods.values() for c in ast.walk(fn_.node) if isinstance(c, ast.Call)
+                 and isinstance(p.resolve_call(fn_, c), tuple) and p.resolve_call(fn_, c)[0] == "ext" and p.resolve_call(fn_, c)[1] in ("urllib.parse.urlsplit", "urllib.parse.urlparse")]
+    if not splitters:
+        rep.undecide("R18.1", "URL: no urlsplit()/urlparse() call found")
+    for fn_, c, r in splitters:
+        if r[1] == "urllib.parse.urlsplit":
+            rep.ok("R18.1", f"{fn_.fq}: components = urlsplit(url) (the path keeps its ';' parameters)")
+        else:
+            rep.violation("R18.1", construct(fn_, text="urlparse(url)"), where(fn_, c), f"{fn_.fq} splits the URL with urlparse(): everything from ';' in the last path segment is moved out of `path`, so the request URL "
+                          "does not have the given path and replace(path=...) keeps the old ;params")
+    rep.require_instances("R18.1", 13)
 
     # ---------------------------------------------------------------- R18.2
     paths, col, it = run_paths(p, build, url)
